@@ -103,7 +103,7 @@ def design_level(ctx):
 # ------------------------------------------------------------------------------------------------
 def gen_tlc(ctx):
     cfg = "PackedIdsGen_quick.cfg" if ctx.quick() else "PackedIdsGen_thorough.cfg"
-    fams = ["val", "pair", "text"]
+    fams = ["val", "pair", "big", "text"]
     groups = [["all"]] if ctx.quick() else [[f] for f in fams]     # thorough: one TLC process per family
 
     def one(g):
@@ -126,7 +126,7 @@ def gen_tlc(ctx):
                              "wall_s": round(r.wall, 1), "rc": r.rc, "cases": {k: len(v) for k, v in got.items()}})
         return got
 
-    with cf.ThreadPoolExecutor(max_workers=3) as ex:
+    with cf.ThreadPoolExecutor(max_workers=4) as ex:
         res = list(ex.map(one, groups))
     out = {}
     for g in res:
@@ -202,6 +202,8 @@ def nontrivial(c):
         return c["a"] != c["b"]
     if t == "sort":
         return len(c["items"]) >= 2
+    if t == "bigsort":
+        return True
     return len(c["toks"]) > 0
 
 
@@ -218,7 +220,10 @@ def execute(ctx, cases):
 def slim(rec):
     """A record short enough to print as an evidence sample."""
     s = json.dumps(rec, separators=(",", ":"))
-    return rec if len(s) < 1500 else {"case": rec["case"], "got": "(%d bytes, e.g. %s ...)" % (len(s), s[s.index('"got"'):][:600])}
+    if len(s) < 1500:
+        return rec
+    cs = json.dumps(rec["case"], separators=(",", ":"))
+    return {"case": rec["case"] if len(cs) < 800 else cs[:800] + " ...", "got": "(%d bytes, e.g. %s ...)" % (len(s), s[s.index('"got"'):][:600])}
 
 
 class _Quiet:
@@ -247,10 +252,17 @@ def run(ctx):
         gen = gen_tlc(ctx)
         vlib.log("C10 generation: %.1fs  (%s)" % (time.time() - t0, ", ".join("%s=%d" % (k, len(v)) for k, v in gen.items())))
         rv, rp, rs = gen_random(ctx)
+        for c in gen["big"]:                 # the shuffle seed is a rendering parameter; vary it with the run's seed
+            c["seed"] = c["seed"] + 7919 * ctx.seed
         families = [("val", gen["val"] + rv), ("pair", gen["pair"] + rp), ("sort", rs), ("text", gen["text"])]
         judge = lambda rs_: vlib.tlc_judge(ctx, JUDGE, JCFG, rs_, shards=max(1, min(6, len(rs_) // 15000)))
         counts = {name: len(cases) for name, cases in families}
         allc = [c for _, cases in families for c in cases]
+        # the big sort cases are few but heavy to judge: spread them evenly so that the judge shards stay balanced
+        counts["bigsort"] = len(gen["big"])
+        stride = max(1, len(allc) // max(1, len(gen["big"])))
+        for k, c in enumerate(gen["big"]):
+            allc.insert(min(len(allc), k * (stride + 1)), c)
         for c in allc:
             ctx.note_case(c, nontrivial=nontrivial(c))
         CH = 150000
@@ -263,7 +275,7 @@ def run(ctx):
                     seen.add(r["case"]["t"])
                     ctx.samples.append(slim(r))
             # Model conformance (bit layout) in parallel with the property verdict; it never produces a violation
-            fl = lay.submit(layout_pass, ctx, [r for r in recs if r["case"]["t"] != "pair"])
+            fl = lay.submit(layout_pass, ctx, [r for r in recs if r["case"]["t"] not in ("pair", "bigsort")])
             vlib.judge_and_confirm(ctx, chunk, recs, lambda cs: execute(ctx, cs), judge)
             fl.result()
         vlib.log("C10 conformance done at %.1fs" % (time.time() - t0))
@@ -279,7 +291,8 @@ def run(ctx):
     tier = "quick" if ctx.quick() else "thorough"
     ctx.rule = ("TLC enumerates PackedIdsSpace!ValCases/PairCases/TextCases(%s) completely (boundary limbs x 7 kinds; all ordered "
                 "pairs of the pool; all token strings up to the length bound plus templates); the driver adds seeded random "
-                "values, random/adjacent pairs and shuffled lists for the sorts.  distinct = distinct abstract cases; non-trivial = "
+                "values, random/adjacent pairs and shuffled lists for the sorts; BigSortCases = structured digit patterns (pivot, "
+                "varying byte positions, positions in which smallest and largest id agree) expanded by the harness to 258..1026 ids.  distinct = distinct abstract cases; non-trivial = "
                 "val: some limb or the version non-zero, pair: a # b, sort: >= 2 items, text: >= 1 token" % tier)
     ctx.assumptions = [
         "references are rendered from limbs as r2<<32|r1<<16|r0 and 64-bit results are split into 16-bit limbs by the harness (neutral, trusted)",
